@@ -55,7 +55,12 @@ def env_prefix(tier, seed):
     for latency in lats:
         for delay in (0, 1):
             for si, st in enumerate(settings if tier != "quick" else settings[:3]):
-                grid, ref = run(base, latency, delay, **st)
+                try:
+                    grid, ref = run(base, latency, delay, **st)
+                except Exception as ex:
+                    acc.fail("C02::shell::episode_runs", "c02_lookahead", {"api": "env", "seed": seed, "latency": latency, "delay": delay, "setting": si, "cut": 0},
+                             {"error": "%s: %s" % (type(ex).__name__, str(ex)[:200])})
+                    continue
                 for cut in range(1, len(base) - 1):
                     pert = list(base)
                     for j in range(cut + 1, len(base)):
